@@ -369,6 +369,9 @@ func run(sp spec, root string, seed int64) *annh.Sc {
 			sc.Line("need", map[string]any{"t": 1})
 			tr.Announce()
 		case "seed":
+			if !getPID() { // also makes sure that the acceptor is listening
+				return sc
+			}
 			sd, err := vh.ConnectSeeder(annh.Null, "seed-"+sp.name, "127.0.0.2", fmt.Sprintf("127.0.0.1:%d", port), tor, &vh.SeederPolicy{})
 			if err != nil {
 				sc.Fail("seeder: %v", err)
@@ -451,7 +454,16 @@ func run(sp spec, root string, seed int64) *annh.Sc {
 // announce datagram of torrent 1, so BEP 15 makes the client retransmit it (15 s, fixed in udptracker/backoff.go) while the
 // other two torrents keep announcing through the same transport. Every datagram that reaches the tracker is compared with
 // the first one of its transaction (annh.Trk `rtx` lines).
+var stall = annh.NewStallMeter()
+
 func runRtx(sp spec, sc *annh.Sc, root string, seed int64) *annh.Sc {
+	m0 := stall.Mark()
+	defer func() {
+		sc.Meta["max_stall_ms"] = stall.MaxSince(m0)
+		if st := stall.MaxSince(m0); st > 1000 {
+			sc.Fail("machine stalled for %d ms during the scenario: the retransmission deadline is not judgeable", st)
+		}
+	}()
 	sc.Cmin, sc.Lat, sc.Slk = sp.cmin, 1500, 2000 // retransmission deadline: 15 s + 3.5 s
 	env, err := annh.NewEnv(root, func(c *torrent.Config) {
 		c.TrackerMinAnnounceInterval = time.Duration(sp.cmin) * time.Millisecond
@@ -534,6 +546,7 @@ func main() {
 	n := flag.Int("n", 20, "scenarios")
 	par := flag.Int("par", 10, "parallel scenarios")
 	root := flag.String("root", "", "scratch directory")
+	only := flag.String("only", "", "run only scenarios of this kind (development)")
 	flag.Parse()
 	torrent.DisableLogging()
 	if *root == "" {
@@ -545,6 +558,15 @@ func main() {
 		defer os.RemoveAll(d)
 	}
 	specs := genSpecs(*seed, *n, "")
+	if *only != "" {
+		var f []spec
+		for _, sp := range specs {
+			if sp.kind == *only {
+				f = append(f, sp)
+			}
+		}
+		specs = f
+	}
 	scs := make([]*annh.Sc, len(specs))
 	sem := make(chan struct{}, *par)
 	var wg sync.WaitGroup
